@@ -85,13 +85,19 @@ def check_graph(exe, gi, names, edges, bound):
             res["problems"].append(("schedule-dependent-result", prefix, obs[:300]))
         if r.get("status") == "err":
             msgs = sorted({f"{d[1]}:{d[4][:60]}" for d in r.get("diags", []) if "Warning" not in d[1]})
-            res["problems"].append(("rejected", prefix, "; ".join(msgs)[:300]))
+            kinds = sorted({d[1] for d in r.get("diags", []) if "Warning" not in d[1]})
+            res["problems"].append(("rejected(" + "+".join(kinds) + ")", prefix, "; ".join(msgs)[:300]))
         elif r.get("status") == "ok":
             out = vlib.py_run([{"id": "r", "pyc": r["pyc"]}], tag + "-run")["r"]
             got = sorted(l for l in out["stdout"].splitlines())
             want = expected_output(names, edges)
+            if out["exc"] == "TIMEOUT":
+                # the runner's 10 s alarm also fires on an overloaded machine: believe it only the second time
+                out = vlib.py_run([{"id": "r", "pyc": r["pyc"], "timeout": 60}], tag + "-run2")["r"]
+                got = sorted(l for l in out["stdout"].splitlines())
             if out["exc"] or got != want:
-                res["problems"].append(("wrong-run", prefix, f"exc={out['exc']} {out.get('msg', '')[:80]} printed={got} expected={want}"))
+                sym = out["exc"] or ("init-twice" if any(got.count(l) > 1 for l in got) else "output")
+                res["problems"].append((f"wrong-run({sym})", prefix, f"exc={out['exc']} {out.get('msg', '')[:80]} printed={got} expected={want}"))
     return res
 
 
